@@ -105,9 +105,7 @@ func c05SendsCase(op, closer, version string) (obs, sig, msg string) {
 	for range s.Sessions() {
 		nServer++
 	}
-	c.mu.Lock()
-	nClient := len(c.sessions)
-	c.mu.Unlock()
+	nClient, _ := privClientSessionCount(c)
 	verdict := func() (string, string, string) {
 		switch {
 		case !closed:
